@@ -12,3 +12,7 @@ open Spydr.Xform
 #print axioms leaf_occurrence_unique
 #print axioms flatten_preserves_conn
 #print axioms flatten_wf
+#print axioms uniquify_never_stuck
+#print axioms flatten_finishes
+#print axioms connU_eq_conn
+#print axioms flatten_preserves_elab_conn
